@@ -379,8 +379,13 @@ def main(run):
     # not a tooling failure.  Anything else (harness bug, environment) stays an infrastructure error.
     import traceback
     tb = traceback.extract_tb(e.__traceback__)
-    inner = tb[-1].filename if tb else ''
-    in_repo = os.path.realpath(inner).startswith(os.path.realpath(os.path.join(REPO, 'vizier')) + os.sep)
+    # the innermost frame that belongs to the code under test or to the harness decides; library frames
+    # below it (protobuf, numpy, jax called from there) are skipped
+    repo_prefix = os.path.realpath(os.path.join(REPO, 'vizier')) + os.sep
+    verif_prefix = os.path.realpath(VERIF) + os.sep
+    inner_frame = next((f for f in reversed(tb) if os.path.realpath(f.filename).startswith((repo_prefix, verif_prefix))), None)
+    inner = inner_frame.filename if inner_frame else ''
+    in_repo = os.path.realpath(inner).startswith(repo_prefix)
     text = ''.join(traceback.format_exception(type(e), e, e.__traceback__))
     if not in_repo:
       print(text, file=sys.stderr)
@@ -388,7 +393,7 @@ def main(run):
       sys.exit(2)
     harness_frame = next((f for f in reversed(tb) if os.path.realpath(f.filename).startswith(os.path.realpath(VERIF))), None)
     c.tie_break('harness could not drive the code under test: %s raised in %s:%d (called from %s:%s)' % (
-        type(e).__name__, os.path.relpath(inner, REPO), tb[-1].lineno,
+        type(e).__name__, os.path.relpath(inner, REPO), inner_frame.lineno,
         os.path.relpath(harness_frame.filename, VERIF) if harness_frame else '?', harness_frame.lineno if harness_frame else '?'),
                 {'traceback': text[-3000:]}, '%s: %s' % (type(e).__name__, str(e)[:300]), 'no exception')
     code = c.finish(level='proof', rule='aborted by an exception raised inside the code under test')
